@@ -219,7 +219,14 @@ where
         Ok(())
     }
 
-    async fn ensure_ready(&mut self, _mode: RadioMode) -> Result<(), RadioError> {
+    async fn ensure_ready(&mut self, mode: RadioMode) -> Result<(), RadioError> {
+        // Leaving sleep is the only moment LongRangeMode can be latched. When the driver
+        // believes the chip asleep (also after a reset whose own sleep request was lost),
+        // request LoRa sleep once more so that the standby request that follows really ends up
+        // in LoRa mode; on a chip that is already asleep this changes nothing.
+        if mode == RadioMode::Sleep {
+            self.write_register(Register::RegOpMode, LoRaMode::Sleep.value()).await?;
+        }
         Ok(())
     }
 
